@@ -6,22 +6,26 @@ import os
 HERE = os.path.dirname(os.path.dirname(os.path.abspath(__file__)))
 
 CHECKS = {
-    "C01": ("invariant monitor at quiescent points (public-property reads after every operation / completed update) + snapshot-vs-recorded-row comparison, both builds",
-            "5.C01"),
-    "C02": ("conservation oracle over the recorded event log (trade/adjust wrappers): per-operation and per-date P&L attribution with costs recomputed by the oracle",
-            "5.C02"),
-    "C03": ("reference-model monitor: index recurrence re-evaluated after every operation and date with flows taken from the event log; pure-flow observations",
-            "5.C03"),
-    "C05": ("pre/post-condition monitor around SecurityBase.allocate over a numeric sweep (cost, budget, maximality, close-out, refusal)",
-            "5.C05"),
-    "C07": ("ledger reconciliation over recorded rows and the event log; exactly-once matching of every trade to one parent adjustment",
-            "5.C07"),
-    "C08": ("idempotence/append-only monitors on raw snapshots under injected redundant updates and reads; deep-copy freshness differential; schedule-injection differential on backtests",
-            "5.C08"),
-    "C12": ("reference-calendar monitor on every row of generated indices (direct calls and spy algos in real backtests); year-boundary grid enumerated",
-            "5.C12"),
-    "C13": ("reference interpreter vs AlgoStack on the complete truth table of stacks up to length 5, sampled nested programs, spies for temp/perm/run order",
-            "5.C13"),
+    "C01": ("exploration", "invariant monitor at quiescent points (public-property reads after every operation / completed update / between algos) + snapshot-vs-recorded-row comparison, real tree and paper shadows, both builds", "5.C01"),
+    "C02": ("exploration", "conservation oracle over the recorded event log (trade/adjust wrappers): per-operation and per-date P&L attribution with costs recomputed by the oracle", "5.C02"),
+    "C03": ("exploration", "reference-model monitor: index recurrence re-evaluated after every operation and date with flows taken from the event log; pure-flow observations", "5.C03"),
+    "C04": ("exploration", "differential fault injection on the future: re-run with perturbed post-cut data, bit-for-bit comparison of recorded frames, trade log and an observation-spy log up to the cut", "5.C04"),
+    "C05": ("exploration", "pre/post-condition monitor around SecurityBase.allocate over a numeric sweep (cost, budget, maximality, close-out, refusal)", "5.C05"),
+    "C06": ("exploration", "post-condition monitor at the exit of Rebalance / RebalanceOverTime calls on random prior portfolios (targets, closes, cash remainder, proportional spreading via the allocate log)", "5.C06"),
+    "C07": ("exploration", "ledger reconciliation over recorded rows and the event log; exactly-once matching of every trade to one parent adjustment", "5.C07"),
+    "C08": ("exploration", "idempotence/append-only monitors on raw snapshots under injected redundant updates and reads; deep-copy freshness differential; schedule-injection differential on backtests", "5.C08"),
+    "C09": ("exploration", "differential monitor: nested child index vs the same definition run stand-alone, bit-for-bit per date; parent universe column vs child prices", "5.C09"),
+    "C10": ("fault_enumeration", "completion monitor on generated well-formed runs (bt.run + every report accessor + finiteness scan) and fault injection of nine enumerated ill-formed classes that must raise", "5.C10"),
+    "C11": ("exploration", "input-integrity digests before/after, order/interleaving differential from one shared template, cross-process differential over PYTHONHASHSEED values, re-run spy", "5.C11"),
+    "C12": ("exploration", "reference-calendar monitor on every row of generated indices (direct calls and spy algos in real backtests); year-boundary grid enumerated", "5.C12"),
+    "C13": ("exploration", "reference interpreter vs AlgoStack on the complete truth table of stacks up to length 5, sampled nested programs, spies for temp/perm/run order", "5.C13"),
+    "C14": ("exploration", "reference-set monitor: temp['selected']/temp['stat'] after each selection algo vs an independent recomputation from the raw frame truncated at now", "5.C14"),
+    "C15": ("exploration", "algebraic post-condition monitor on temp['weights'] after each weighting algo (sums, bounds, risk relations, ex-ante volatility, tracking-error trigger)", "5.C15"),
+    "C16": ("exploration", "history + trade-log + spy-algo oracle on leveraged runs with injected price shocks (flag, liquidation, terminality)", "5.C16"),
+    "C17": ("exploration", "invariant monitor after every fixed-income operation (notional, weights), coupon/cost/sweep/additive-index oracles from the input frames, Rebalance target spies", "5.C17"),
+    "C18": ("exploration", "report-vs-history recomputation on finished runs and replay differential through ReplayTransactions", "5.C18"),
+    "C19": ("exploration", "structural invariant checks on constructed trees, universe probe algo inside running strategies, lazy-vs-eager differential", "5.C19"),
+    "C20": ("exploration", "risk-aggregation reference, hedge post-condition vs numpy least squares, post-condition wrappers around close/roll algos with the trade log", "5.C20"),
 }
 
 NOT_YET = {}
@@ -29,7 +33,7 @@ NOT_YET = {}
 
 def main():
     checks = []
-    for pid, (tech, ref) in sorted(CHECKS.items()):
+    for pid, (cat, tech, ref) in sorted(CHECKS.items()):
         checks.append({
             "property_id": pid,
             "quick_cmd": "./check %s --tier quick" % pid,
@@ -38,7 +42,7 @@ def main():
             "replay_cmd_template": "./check %s --replay {path}" % pid,
             "engine": "vf",
             "level_claimed": {
-                "category": "exploration",
+                "category": cat,
                 "text": "Held on the generated executions of the real bt code (interpreted and cythonized builds of /repo's working tree) observed by "
                         "the monitors; evidence lists cases, events and monitor evaluations actually observed. Says nothing about executions the generators do not produce.",
                 "design_ref": ref,
